@@ -262,85 +262,113 @@ def _compute_active_scope(
        (with pessimistic gate expansion)
     """
     active = set(nodes)
+    scoped = nx_graph
     if entrypoints is not None:
-        active = _active_from_entrypoints(entrypoints, nodes, nx_graph)
+        alternates = _exclusive_alternates(nodes, nx_graph)
+        active = _active_from_entrypoints(entrypoints, nodes, nx_graph, alternates)
+        if alternates:
+            scoped = nx_graph.subgraph(active).copy()
+            _link_alternate_producers(scoped, active, alternates, nx_graph)
     if selected is not None:
-        active = _active_from_selection(selected, active, nodes, nx_graph)
+        active = _active_from_selection(selected, active, nodes, scoped)
 
     active_nodes = {name: nodes[name] for name in nodes if name in active}
-    active_subgraph = nx_graph.subgraph(active).copy()
-    if entrypoints is not None:
-        _link_other_producers(active_subgraph, active_nodes, nodes, nx_graph)
+    active_subgraph = scoped.subgraph(active).copy()
     return active_nodes, active_subgraph
 
 
-def _link_other_producers(
-    active_subgraph: nx.DiGraph,
-    active_nodes: dict[str, HyperNode],
+def _exclusive_alternates(
     nodes: dict[str, HyperNode],
     nx_graph: nx.DiGraph,
-) -> None:
-    """Give the active producers of a shared name the edges of the first one.
+) -> dict[str, tuple[str, list[str]]]:
+    """Names produced on mutually exclusive gate branches.
 
-    A name produced by several nodes (exclusive gate branches) has its data and
-    ordering edges drawn from the producer listed first. When entry points
-    leave that producer out of the scope, the scoped graph would show the name
-    as produced by nobody - a required input - although an active node produces
-    it. The edge a reader has from the first producer is repeated from every
-    other active producer (in the scoped copy only).
+    Returns ``{name: (holder, alternates)}``: the graph draws the data and
+    ordering edges of such a name from the producer listed first (the holder);
+    the alternates are the other producers that are mutually exclusive with it.
+    Producers that are merely ordered (``load -> df``, ``clean(df) -> df``) are
+    not alternates of each other.
     """
+    from hypergraph.graph._conflict import _expand_mutex_groups, _is_pair_mutex
+
     producers: dict[str, list[str]] = {}
     for node in nodes.values():
         for out in node.outputs:
             producers.setdefault(out, []).append(node.name)
-    shared = {name: names for name, names in producers.items() if len(names) > 1}
-    if not shared:
-        return
+    contested = {name: names for name, names in producers.items() if len(names) > 1}
+    if not contested:
+        return {}
 
-    for reader in active_nodes.values():
-        for pred, _, data in nx_graph.in_edges(reader.name, data=True):
+    groups = _expand_mutex_groups(nx_graph, list(nodes.values()))
+    result: dict[str, tuple[str, list[str]]] = {}
+    for name, names in contested.items():
+        holder = names[0]
+        alternates = [other for other in names[1:] if _is_pair_mutex(holder, other, groups)]
+        if alternates:
+            result[name] = (holder, alternates)
+    return result
+
+
+def _link_alternate_producers(
+    scoped: nx.DiGraph,
+    active: set[str],
+    alternates: dict[str, tuple[str, list[str]]],
+    nx_graph: nx.DiGraph,
+) -> None:
+    """Repeat an excluded holder's edges from its active alternate producers.
+
+    When entry points leave the edge-holding producer of a name out of the
+    scope while an exclusive alternate is inside, the scoped graph would show
+    the name as produced by nobody (a required input). In the scoped copy the
+    alternate gets the edges the holder has in the full graph.
+    """
+    for name, (holder, others) in alternates.items():
+        if holder in active:
+            continue  # its edges are in the scope: nothing is missing
+        for _, reader, data in nx_graph.out_edges(holder, data=True):
             edge_type = data.get("edge_type")
-            if edge_type not in ("data", "ordering"):
+            if reader not in active or edge_type not in ("data", "ordering") or name not in data.get("value_names", ()):
                 continue
-            for name in data.get("value_names", ()):
-                if pred not in shared.get(name, ()):
+            for other in others:
+                if other not in active or other == reader:
                     continue
-                for other in shared[name]:
-                    if other == pred or other == reader.name or other not in active_nodes:
-                        continue
-                    if active_subgraph.has_edge(other, reader.name):
-                        existing = active_subgraph.edges[other, reader.name]
+                if scoped.has_edge(other, reader):
+                    existing = scoped.edges[other, reader]
+                    if existing.get("edge_type") == "data" or edge_type == "ordering":
                         if existing.get("edge_type") == edge_type and name not in existing.get("value_names", []):
                             existing["value_names"] = [*existing.get("value_names", []), name]
                         continue
-                    active_subgraph.add_edge(other, reader.name, edge_type=edge_type, value_names=[name])
+                    # a data edge takes the place of an ordering/control edge, as in the full graph
+                scoped.add_edge(other, reader, edge_type=edge_type, value_names=[name])
 
 
 def _active_from_entrypoints(
     entrypoint_nodes: tuple[str, ...],
     nodes: dict[str, HyperNode],
     nx_graph: nx.DiGraph,
+    alternates: dict[str, tuple[str, list[str]]] | None = None,
 ) -> set[str]:
     """Compute active nodes by forward reachability from entrypoints.
 
     Everything upstream of entrypoints is excluded. Only the entrypoint
     nodes and their downstream descendants are active.
+
+    A name produced on mutually exclusive gate branches has its edges drawn
+    from the producer listed first only, yet whichever branch runs feeds the
+    same readers: downstream of an alternate producer is what is downstream of
+    the edge-holding one through that name.
     """
-    # A name produced by several nodes (exclusive gate branches) has its edges
-    # drawn from the producer listed first only, yet whichever producer runs
-    # feeds the same consumers and wakes the same waiting nodes: downstream of a
-    # producer of such a name is everything that reads or waits for the name.
-    producers: dict[str, int] = {}
-    for node in nodes.values():
-        for out in node.outputs:
-            producers[out] = producers.get(out, 0) + 1
-    shared = {name for name, count in producers.items() if count > 1}
-    readers: dict[str, set[str]] = {}
-    if shared:
-        for node in nodes.values():
-            for name in (*node.inputs, *node.wait_for):
-                if name in shared:
-                    readers.setdefault(name, set()).add(node.name)
+    if alternates is None:
+        alternates = _exclusive_alternates(nodes, nx_graph)
+    via_holder: dict[str, set[str]] = {}
+    for name, (holder, others) in alternates.items():
+        readers = {
+            reader
+            for _, reader, data in nx_graph.out_edges(holder, data=True)
+            if data.get("edge_type") in ("data", "ordering") and name in data.get("value_names", ())
+        }
+        for other in others:
+            via_holder.setdefault(other, set()).update(readers - {other})
 
     active: set[str] = set()
     worklist = list(entrypoint_nodes)
@@ -350,8 +378,7 @@ def _active_from_entrypoints(
             continue
         active.add(name)
         successors = set(nx_graph.successors(name)) if name in nx_graph else set()
-        for out in nodes[name].outputs:
-            successors |= readers.get(out, set())
+        successors |= via_holder.get(name, set())
         worklist.extend(successors - active)
     return active
 
